@@ -8,9 +8,9 @@ open Py Xs.Bind Xs.Bind.F1 Xs.Bind.FN
 
 theorem genObj_unfoldN (e : BEnv) (Γ : Ctx) (cfg : SerCfg) (f : Nat) (c : ClassId)
     (fields : List (Str × Val)) (pns : Option Str) (oq : Option QN) (m : XmlMeta) (nl : Bool)
-    (hm : metaOf Γ c pns = some m) :
-    genObj e Γ cfg (f + 1) (.obj c fields) pns oq nl none = (do
-      let attrs ← nextAttribute cfg m fields (nl || m.nillable) none
+    (hm : metaOf Γ c pns = some m) (xt : Option QN := none) :
+    genObj e Γ cfg (f + 1) (.obj c fields) pns oq nl xt = (do
+      let attrs ← nextAttribute cfg m fields (nl || m.nillable) xt
       let vals ← nextValue m fields
       let body ← vals.mapM (genField e Γ cfg f (targetUri (resolveQ oq m)))
       return [Ev.start (resolveQ oq m)] ++ attrs ++ body.flatten ++ [Ev.end (resolveQ oq m)]) := by
@@ -305,7 +305,7 @@ theorem All2_flatten_nil {α β γ : Type} {R : α → List β → Prop} (T : α
 
 /-- generator + writer of all emitted pairs -/
 theorem body_genN (e : BEnv) (Γ : Ctx) (cfg : SerCfg) (M : NsMap) (ns : Option Str)
-    (rec : Bool → QN → Val → Tree) {m : XmlMeta} (chunks : List (XmlVar × Val)) (f : Nat)
+    (rec : XmlVar → Val → Tree) {m : XmlMeta} (chunks : List (XmlVar × Val)) (f : Nat)
     (h : ∀ c ∈ chunks, ElemFactsN m c.1 ∧ Shape c.1 c.2 ∧ (c.2 ≠ .none ∨ c.1.nillable = true) ∧
       ∀ y ∈ itemsN c.1 c.2, ∃ evs,
         itemGen e Γ cfg c.1 ns (chunkFuel c.2 f) y = .ok evs ∧
